@@ -76,6 +76,9 @@ def one(Q, name, op, a, b, shape, unit, st, is_cmp):
         x, y, units_differ = Q(a, unit), Q(b, unit), False
     elif shape == 'Q op Q unitless both':
         x, y, units_differ = Q(a, None), Q(b, None), False
+    elif shape == 'Q op the same Q object':
+        x = Q(a, unit)
+        y, units_differ = x, False
     elif shape == 'Q(unit) op Q(no unit)':
         x, y, units_differ = Q(a, 'kg'), Q(b, None), True
     else:
@@ -109,6 +112,13 @@ def task(pairs, units):
             for name, op in CMPOPS:
                 for shape in SHAPES:
                     one(Q, name, op, a, b, shape, unit, st, True)
+            if type(a) is type(b) and repr(a) == repr(b):
+                # both operands are one and the same Quantity object: still the value's own answer (nan != nan)
+                for name, op in BINOPS:
+                    if not too_big(name, a, b):
+                        one(Q, name, op, a, b, 'Q op the same Q object', unit, st, False)
+                for name, op in CMPOPS:
+                    one(Q, name, op, a, b, 'Q op the same Q object', unit, st, True)
             # three-argument pow with a Quantity base
             for m in (5, -3):
                 if isinstance(a, int) and isinstance(b, int):
@@ -156,7 +166,7 @@ def run(ctx):
     if st.c['executions'] + sum(st.skips.values()) * len(SHAPES) < space.leaves():
         raise HarnessError('enumeration incomplete: %d < %d' % (st.c['executions'], space.leaves()))
     return {'stats': st, 'exhaustive': True,
-            'rule': 'complete product: 19 operands^2 x units x (13 arithmetic/bitwise + 6 comparison operators) x 6 operand shapes, '
+            'rule': 'complete product: 19 operands^2 x units x (13 arithmetic/bitwise + 6 comparison operators) x 6 operand shapes (+ one Quantity object on both sides, on the diagonal), '
                     '+ 3-argument pow with Quantity base, + 7 unary operators/conversions; distinct = distinct '
                     '(operator, a, b, shape, unit); every case is non-trivial (it evaluates an operator on a real Quantity)',
             'coverage': {'bounds': {'operands': len(OPERANDS), 'units': units, 'binary_ops': len(BINOPS), 'cmp_ops': len(CMPOPS),
